@@ -153,7 +153,12 @@ fn templates() -> Vec<String> {
         "create-user x t", "snapshot false", "snapshot false db", "create-db n t", "ack 1 x", "auth admin wrong", "auth wrong pwd", "cluster-state",
         "metrics-state", "debug list-dbs", "debug pending-ops", "debug pendding-conflitcts", "list-commands", "election win", "election candidate 1 x",
         "join x", "leave x", "replicate-join x", "replicate-leave x", "set-primary x", "set-secoundary x", "replicate-since x 0",
-        "replicate-snapshot db false", "keys $conflicts", "get {CK}", "get-safe {CK}", "watch {CK}", "set {CK} x", "remove {CK}", "watch $conflicts", "get $connections", "set a 1", "get a", "watch secret", "set secret s2", "remove secret",
+        "replicate-snapshot db false",
+        // values that carry a line break followed by a cluster command naming a $$ key: the links between nodes are
+        // line-framed and run with administrator authority (HTTP and WebSocket sessions can send such a value)
+        "set note a\nreplicate db $$secret -1 pwned", "set note a\r\nreplicate db $$secret -1 pwned", "set-safe note 0 a\nreplicate-remove db $$only1",
+        "set note a\nrp 1 replicate db $$token -1 t", "set note a\nreplicate-increment db $$user_x 1", "set note a\nresolve 1 db $$secret 5 x",
+        "keys $conflicts", "get {CK}", "get-safe {CK}", "watch {CK}", "set {CK} x", "remove {CK}", "watch $conflicts", "get $connections", "set a 1", "get a", "watch secret", "set secret s2", "remove secret",
     ] {
         t.push(s.to_string());
     }
@@ -226,9 +231,16 @@ fn run_pair_on(kind: Kind, with_conflict: bool, secondary: bool, lines: &[String
                     if secondary {
                         while let Ok(Some(m)) = links[i].try_next() {
                             // the key a forwarded message acts on: replicate* <db> <key> ..., resolve <id> <db> <key> ...
-                            let w: Vec<&str> = m.split(' ').collect();
-                            let key = if w.first().map(|x| x.starts_with("replicate")).unwrap_or(false) { w.get(2) } else if w.first() == Some(&"resolve") { w.get(3) } else { None };
-                            if forwarded_secure.is_none() && key.map(|k| k.starts_with("$$")).unwrap_or(false) {
+                            // the link is line-framed (read_line: '\n' ends a command, '\r' does not): every line handed to it is a command
+                            let targets_secure = m.split('\n').any(|line| {
+                                let mut w: Vec<&str> = line.trim().split(' ').collect();
+                                if w.first() == Some(&"rp") && w.len() > 2 {
+                                    w.drain(..2);
+                                }
+                                let key = if w.first().map(|x| x.starts_with("replicate")).unwrap_or(false) { w.get(2) } else if w.first() == Some(&"resolve") { w.get(3) } else { None };
+                                key.map(|k| k.starts_with("$$")).unwrap_or(false)
+                            });
+                            if forwarded_secure.is_none() && targets_secure {
                                 forwarded_secure = Some((l_raw.clone(), m.clone()));
                             }
                             pushed.push(format!("->primary: {}", normalize(&m)));
